@@ -7,6 +7,7 @@ global size_of usize == 8;
 //@ item layout21tetris/src/coords.rs :: type Int
 //@ end
 //@ include units/tetris_place/coords.inc.rs
+//@ include units/dep_order/spec.inc.rs
 impl vstd::std_specs::convert::FromSpecImpl<std::num::TryFromIntError> for LayoutError {
     open spec fn obeys_from_spec() -> bool { true }
     open spec fn from_spec(e: std::num::TryFromIntError) -> LayoutError { LayoutError { } }
@@ -58,6 +59,13 @@ pub mod tproto {
     impl Default for TrackRef { fn default() -> (r: Self) ensures r.layer == 0, r.track == 0 { TrackRef { layer: 0, track: 0 } } }
     impl Default for TrackCross { fn default() -> (r: Self) ensures r.track is None, r.cross is None { TrackCross { track: None, cross: None } } }
     impl Default for Assign { fn default() -> (r: Self) ensures r.at is None, r.net@.len() == 0 { Assign { net: String::new(), at: None } } }
+    /// opaque: abstract views are outside C19's statement
+    pub struct Abstract { pub name: String, pub outline: Option<Outline>, pub ports: Vec<AbstractPort> }
+    pub struct AbstractPort { }
+    pub struct Cell { pub name: String, pub r#abstract: Option<Abstract>, pub layout: Option<Layout> }
+    pub struct Library { pub domain: String, pub cells: Vec<Cell> }
+    impl Default for Cell { fn default() -> (r: Self) ensures r.name@.len() == 0, r.r#abstract is None, r.layout is None { Cell { name: String::new(), r#abstract: None, layout: None } } }
+    impl Default for Library { fn default() -> (r: Self) ensures r.domain@.len() == 0, r.cells@.len() == 0 { Library { domain: String::new(), cells: Vec::new() } } }
     impl Default for Instance { fn default() -> (r: Self) ensures r.cell is None, r.loc is None, !r.reflect_horiz, !r.reflect_vert, r.name@.len() == 0 { Instance { name: String::new(), cell: None, loc: None, reflect_horiz: false, reflect_vert: false } } }
 }
 //@ item layout21tetris/src/tracks.rs :: struct TrackRef
@@ -106,8 +114,6 @@ impl<T: HasUnits> Xy<T> {
 // EXPORTER (layout21tetris/src/conv/proto.rs)
 // =====================================================================================================
 //@ item layout21tetris/src/conv/proto.rs :: struct ProtoExporter
-//@   sub R5 /ProtoExporter<'lib>/ => ProtoExporter
-//@   sub R5 /lib: &'lib Library,[^\n]*/ =>
 //@   sub R4 /\n    ctx:/ => \n    pub ctx:
 //@ end
 pub open spec fn inst_exp(g: tproto::Instance, inst: Instance) -> bool {
@@ -121,8 +127,30 @@ pub open spec fn cross_exp(g: tproto::TrackCross, c: TrackCross) -> bool {
     g.track is Some && g.cross is Some && g.track->0.layer == c.track.layer && g.track->0.track == c.track.track && g.cross->0.layer == c.cross.layer && g.cross->0.track == c.cross.track
 }
 pub open spec fn assn_exp(g: tproto::Assign, a: Assign) -> bool { g.net@ == a.net@ && g.at is Some && cross_exp(g.at->0, a.at) }
+/// the layout message: name, outline steps and metal count, and one message per instance / assignment / cut, in order
+pub open spec fn layout_exp(g: tproto::Layout, layout: Layout) -> bool {
+    &&& g.name@ == layout.name@ &&& g.outline is Some && outline_exp(g.outline->0, layout.outline, layout.metals)
+    &&& g.instances@.len() == layout.instances@.len() &&& forall|i: int| 0 <= i < layout.instances@.len() ==> inst_exp(#[trigger] g.instances@[i], *layout.instances@[i].v)
+    &&& g.assignments@.len() == layout.assignments@.len() &&& forall|i: int| 0 <= i < layout.assignments@.len() ==> assn_exp(#[trigger] g.assignments@[i], layout.assignments@[i])
+    &&& g.cuts@.len() == layout.cuts@.len() &&& forall|i: int| 0 <= i < layout.cuts@.len() ==> cross_exp(#[trigger] g.cuts@[i], layout.cuts@[i])
+}
+/// the cell message: the cell's name and, when it has a layout view, that layout's message
+pub open spec fn cell_exp(g: tproto::Cell, c: Cell) -> bool {
+    &&& g.name@ == c.name@ &&& (g.layout is Some <==> c.layout is Some) &&& (c.layout is Some ==> layout_exp(g.layout->0, c.layout->0))
+}
+/// the cells a cell instantiates (its layout view's instances' targets): the dependency relation of CellOrder
+pub open spec fn cell_dep_seq(l: Layout) -> Seq<Ptr<Cell>> { Seq::new(l.instances@.len(), |i: int| (*l.instances@[i].v).cell) }
+pub open spec fn cell_deps(item: Ptr<Cell>) -> Set<Ptr<Cell>> { match (*item.v).layout { Some(l) => cell_dep_seq(l).to_set(), None => Set::empty() } }
+/// the library message: the library's name, and its cells' messages in a dependency ordering of the cell list
+pub open spec fn lib_exp(g: tproto::Library, lib: Library) -> bool {
+    &&& g.domain@ == lib.name@
+    &&& exists|order: Seq<Ptr<Cell>>| is_dep_ordering(order, lib.cells@, |c: Ptr<Cell>| cell_deps(c)) && #[trigger] cells_exp(g.cells@, order)
+}
+pub open spec fn cells_exp(g: Seq<tproto::Cell>, order: Seq<Ptr<Cell>>) -> bool {
+    g.len() == order.len() && forall|i: int| 0 <= i < order.len() ==> cell_exp(#[trigger] g[i], *order[i].v)
+}
 pub open spec fn dims_eq(v: Seq<i64>, p: Seq<PrimPitches>) -> bool { v.len() == p.len() && forall|i: int| 0 <= i < p.len() ==> #[trigger] v[i] == p[i].num }
-impl ProtoExporter {
+impl<'lib> ProtoExporter<'lib> {
 //@ fn layout21tetris/src/conv/proto.rs :: impl<'lib> ProtoExporter<'lib> :: fn export_track_ref
 //@   ret r
 //@   spec
@@ -166,14 +194,7 @@ impl ProtoExporter {
 //@   sub R6 /for assn in &layout\.assignments \{/ => for assn in layout.assignments.iter() {
 //@   sub R6 /for cut in &layout\.cuts \{/ => for cut in layout.cuts.iter() {
 //@   spec
-//|     ensures r is Ok ==> ({
-//|         let g = r->Ok_0;
-//|         &&& final(self).ctx@ == old(self).ctx@ &&& g.name@ == layout.name@ &&& g.outline is Some && outline_exp(g.outline->0, layout.outline, layout.metals)
-//|         // one message per instance / assignment / cut, in order
-//|         &&& g.instances@.len() == layout.instances@.len() &&& forall|i: int| 0 <= i < layout.instances@.len() ==> inst_exp(#[trigger] g.instances@[i], *layout.instances@[i].v)
-//|         &&& g.assignments@.len() == layout.assignments@.len() &&& forall|i: int| 0 <= i < layout.assignments@.len() ==> assn_exp(#[trigger] g.assignments@[i], layout.assignments@[i])
-//|         &&& g.cuts@.len() == layout.cuts@.len() &&& forall|i: int| 0 <= i < layout.cuts@.len() ==> cross_exp(#[trigger] g.cuts@[i], layout.cuts@[i])
-//|     }),
+//|     ensures r is Ok ==> final(self).ctx@ == old(self).ctx@ && layout_exp(r->Ok_0, *layout),
 //@   loop 1 iter it
 //|             invariant self.ctx@ == old(self).ctx@.push(ErrorContext::Impl), playout.name@ == layout.name@, playout.outline is Some && outline_exp(playout.outline->0, layout.outline, layout.metals),
 //|                 playout.assignments@.len() == 0, playout.cuts@.len() == 0, playout.instances@.len() == it.index@, it.index@ <= layout.instances@.len(),
@@ -192,6 +213,26 @@ impl ProtoExporter {
 //@   before /^        Ok\(playout\)$/
 //|         proof { assert(self.ctx@ =~= old(self).ctx@); }
 //@ end
+//@ fn layout21tetris/src/conv/proto.rs :: impl<'lib> ProtoExporter<'lib> :: fn export_lib
+//@   ret r
+//@   let plib : tproto::Library
+//@   sub R6 /for cell in CellOrder::order\(&self\.lib\.cells\)\?\.iter\(\) \{/ => let vp_order = CellOrder::order(&self.lib.cells)?; for cell in vp_order.iter() {
+//@   spec
+//|     ensures r is Ok ==> lib_exp(r->Ok_0, *old(self).lib),
+//@   loop 1 iter it
+//|             invariant plib.domain@ == old(self).lib.name@, plib.cells@.len() == it.index@, it.index@ <= vp_order@.len(),
+//|                 forall|i: int| 0 <= i < it.index@ ==> cell_exp(#[trigger] plib.cells@[i], *vp_order@[i].v),
+//@   before /^        Ok\(plib\)$/
+//|         proof { assert(cells_exp(plib.cells@, vp_order@)); }
+//@ end
+//@ fn layout21tetris/src/conv/proto.rs :: impl<'lib> ProtoExporter<'lib> :: fn export_cell
+//@   ret r
+//@   spec
+//|     ensures r is Ok ==> cell_exp(r->Ok_0, *cell),
+//@ end
+    /// abstract views are outside C19's statement: no contract, nothing assumed
+    #[verifier::external_body]
+    fn export_abstract(&mut self, abs: &Abstract) -> (r: LayoutResult<tproto::Abstract>) { unimplemented!() }
 //@ fn layout21tetris/src/conv/proto.rs :: impl<'lib> ProtoExporter<'lib> :: fn export_outline
 //@   ret r
 //@   spec
@@ -202,9 +243,55 @@ impl ProtoExporter {
 // =====================================================================================================
 // IMPORTER
 // =====================================================================================================
-pub struct Cell { pub name: String }
+pub mod abs { pub use super::Abstract; }
+pub struct Port { }
+//@ item layout21tetris/src/abs.rs :: struct Abstract
+//@ end
+impl Abstract {
+    /// model of Abstract::new(impl Into<String>, metals, outline)
+    #[verifier::external_body]
+    pub fn new(name: &String, metals: usize, outline: Outline) -> (r: Self) ensures r.name@ == name@, r.metals == metals, r.outline == outline, r.ports@.len() == 0 { unimplemented!() }
+}
+// R5: the interface-bundle and raw-layout views (not converted by conv/proto.rs) as opaque types
+pub mod interface { pub struct Bundle { } }
+pub struct RawLayoutPtr { }
+//@ item layout21tetris/src/cell.rs :: struct Cell
+//@ end
+impl Cell {
+    /// model of Cell::new(impl Into<String>): the name, every view absent (`..Default::default()`)
+    #[verifier::external_body]
+    pub fn new(name: &String) -> (r: Self) ensures r.name@ == name@, r.abs is None, r.layout is None { unimplemented!() }
+}
+/// model of layout21utils::PtrList<T> (newtype over Vec<Ptr<T>>); `insert` = `add`: wrap in a new Ptr, append, return the pointer
+pub struct PtrList<T> { pub v: Vec<Ptr<T>> }
+impl<T> View for PtrList<T> { type V = Seq<Ptr<T>>; open spec fn view(&self) -> Seq<Ptr<T>> { self.v@ } }
+impl<T> PtrList<T> {
+    #[verifier::external_body]
+    pub fn insert(&mut self, t: T) -> (r: Ptr<T>) ensures final(self)@ == old(self)@.push(r), *r.v == t { unimplemented!() }
+}
+/// R5: layout21tetris::library::Library without its raw-library list
+pub struct Library { pub name: String, pub cells: PtrList<Cell> }
+impl Library {
+    /// model of Library::new(impl Into<String>)
+    #[verifier::external_body]
+    pub fn new(name: String) -> (r: Self) ensures r.name@ == name@, r.cells@.len() == 0 { unimplemented!() }
+}
+/// `CellOrder::order` with, as an ASSUMED contract, the contract proved for the generic `DepOrder::order` in unit dep_order given the
+/// `process` contract proved for CellOrder in unit order_impls (pointee(p) there is `*p.v` here)
+pub struct CellOrder;
+impl CellOrder {
+    #[verifier::external_body]
+    pub fn order(items: &PtrList<Cell>) -> (r: LayoutResult<Vec<Ptr<Cell>>>)
+        ensures r is Ok ==> is_dep_ordering(r->Ok_0@, items@, |c: Ptr<Cell>| cell_deps(c)),
+    { unimplemented!() }
+}
 pub struct CellMap { pub m: Vec<Ptr<Cell>> }
 impl CellMap {
+    /// model of HashMap::insert: the key now maps to `v`, every other key as before
+    #[verifier::external_body]
+    pub fn insert(&mut self, k: String, v: Ptr<Cell>) -> (r: Option<Ptr<Cell>>)
+        ensures forall|q: Seq<char>| #[trigger] final(self).lookup(q) == (if q == k@ { Some(v) } else { old(self).lookup(q) }),
+    { unimplemented!() }
     pub uninterp spec fn lookup(&self, k: Seq<char>) -> Option<Ptr<Cell>>;
     #[verifier::external_body]
     pub fn get(&self, k: &String) -> (r: Option<&Ptr<Cell>>)
@@ -254,6 +341,43 @@ pub open spec fn cross_imp(c: TrackCross, g: tproto::TrackCross) -> bool {
 pub open spec fn assn_imp(a: Assign, g: tproto::Assign) -> bool { a.net@ == g.net@ && g.at is Some && cross_imp(a.at, g.at->0) }
 /// the imported outline has exactly the message's steps, is a valid staircase, and keeps the metal count
 pub open spec fn outline_imp(o: Outline, m: usize, g: tproto::Outline) -> bool { dims_eq(g.x@, o.x@) && dims_eq(g.y@, o.y@) && outline_valid(o.x@, o.y@) && m == g.metals }
+/// the imported layout: name, outline, metal count, and one instance / assignment / cut per message, in order; nothing else
+pub open spec fn layout_imp(l: Layout, playout: tproto::Layout, m: CellMap) -> bool {
+    &&& l.name@ == playout.name@ &&& playout.outline is Some && outline_imp(l.outline, l.metals, playout.outline->0)
+    &&& l.instances@.len() == playout.instances@.len() &&& forall|i: int| 0 <= i < playout.instances@.len() ==> inst_imp(*(#[trigger] l.instances@[i]).v, playout.instances@[i], m)
+    &&& l.assignments@.len() == playout.assignments@.len() &&& forall|i: int| 0 <= i < playout.assignments@.len() ==> assn_imp(#[trigger] l.assignments@[i], playout.assignments@[i])
+    &&& l.cuts@.len() == playout.cuts@.len() &&& forall|i: int| 0 <= i < playout.cuts@.len() ==> cross_imp(#[trigger] l.cuts@[i], playout.cuts@[i])
+    &&& l.places@.len() == 0
+}
+/// the imported cell: the message's name and, exactly when the message has one, its layout imported against cell map `m`
+pub open spec fn cell_imp(c: Cell, g: tproto::Cell, m: CellMap) -> bool {
+    &&& c.name@ == g.name@ &&& (c.layout is Some <==> g.layout is Some) &&& (g.layout is Some ==> layout_imp(c.layout->0, g.layout->0, m))
+}
+/// what the cell map answers for name `q` once the first `n` cell messages have been imported on top of map `m0`
+pub open spec fn lk_after(m0: CellMap, pcells: Seq<tproto::Cell>, cells: Seq<Ptr<Cell>>, n: nat, q: Seq<char>) -> Option<Ptr<Cell>>
+    decreases n
+{
+    if n == 0 { m0.lookup(q) } else if pcells[n - 1].name@ == q { Some(cells[n - 1]) } else { lk_after(m0, pcells, cells, (n - 1) as nat, q) }
+}
+pub open spec fn map_is(m: CellMap, m0: CellMap, pcells: Seq<tproto::Cell>, cells: Seq<Ptr<Cell>>, n: nat) -> bool {
+    forall|q: Seq<char>| #[trigger] m.lookup(q) == lk_after(m0, pcells, cells, n, q)
+}
+/// cell `i` of the library is message `i` imported against the map holding exactly the earlier messages' cells
+pub open spec fn cell_imported(cells: Seq<Ptr<Cell>>, pcells: Seq<tproto::Cell>, m0: CellMap, i: int) -> bool {
+    exists|m: CellMap| map_is(m, m0, pcells, cells, i as nat) && #[trigger] cell_imp(*cells[i].v, pcells[i], m)
+}
+pub open spec fn lib_imp(lib: Library, plib: tproto::Library, m0: CellMap, m1: CellMap) -> bool {
+    &&& lib.name@ == plib.domain@ &&& lib.cells@.len() == plib.cells@.len()
+    &&& forall|i: int| 0 <= i < plib.cells@.len() ==> #[trigger] cell_imported(lib.cells@, plib.cells@, m0, i)
+    &&& map_is(m1, m0, plib.cells@, lib.cells@, plib.cells@.len())
+}
+pub proof fn lemma_lk_ext(m0: CellMap, pcells: Seq<tproto::Cell>, c1: Seq<Ptr<Cell>>, c2: Seq<Ptr<Cell>>, n: nat, q: Seq<char>)
+    requires n <= c1.len(), n <= c2.len(), forall|k: int| 0 <= k < n ==> c1[k] == c2[k],
+    ensures lk_after(m0, pcells, c1, n, q) == lk_after(m0, pcells, c2, n, q),
+    decreases n
+{
+    if n > 0 { lemma_lk_ext(m0, pcells, c1, c2, (n - 1) as nat, q); }
+}
 impl ProtoLibImporter {
     #[verifier::external_body]
     fn fail<T, M>(&self, msg: M) -> (r: LayoutResult<T>) ensures r is Err { Err(LayoutError { }) }
@@ -262,6 +386,48 @@ impl ProtoLibImporter {
     fn unwrap<T, M>(&self, opt: Option<T>, msg: M) -> (r: LayoutResult<T>)
         ensures opt is Some ==> r == Ok::<T, LayoutError>(opt->0), opt is None ==> r is Err,
     { unimplemented!() }
+//@ fn layout21tetris/src/conv/proto.rs :: impl ProtoLibImporter :: fn import_lib
+//@   ret r
+//@   sub R6 /for cell in &plib\.cells \{/ => for cell in plib.cells.iter() {
+//@   spec
+//|     ensures r is Ok ==> lib_imp(r->Ok_0, *plib, old(self).cell_map, final(self).cell_map),
+//@   loop 1 iter it
+//|             invariant lib.name@ == plib.domain@, lib.cells@.len() == it.index@, it.index@ <= plib.cells@.len(),
+//|                 forall|i: int| 0 <= i < it.index@ ==> #[trigger] cell_imported(lib.cells@, plib.cells@, old(self).cell_map, i),
+//|                 map_is(self.cell_map, old(self).cell_map, plib.cells@, lib.cells@, it.index@ as nat),
+//@   before1 /let cell = self\.import_cell\(/
+//|             let ghost m_prev = self.cell_map; let ghost cells_prev = lib.cells@; let ghost n = it.index@;
+//@   after1 /self\.cell_map\.insert\(/
+//|             proof {
+//|                 let m0 = old(self).cell_map; let pc = plib.cells@; let cs = lib.cells@;
+//|                 assert forall|q: Seq<char>| #[trigger] lk_after(m0, pc, cells_prev, n as nat, q) == lk_after(m0, pc, cs, n as nat, q) by { lemma_lk_ext(m0, pc, cells_prev, cs, n as nat, q); }
+//|                 assert(map_is(m_prev, m0, pc, cs, n as nat));
+//|                 assert(cell_imp(*cs[n].v, pc[n], m_prev));
+//|                 assert(cell_imported(cs, pc, m0, n));
+//|                 assert forall|i: int| 0 <= i < n implies #[trigger] cell_imported(cs, pc, m0, i) by {
+//|                     assert(cell_imported(cells_prev, pc, m0, i));
+//|                     let m = choose|m: CellMap| map_is(m, m0, pc, cells_prev, i as nat) && #[trigger] cell_imp(*cells_prev[i].v, pc[i], m);
+//|                     assert forall|q: Seq<char>| #[trigger] m.lookup(q) == lk_after(m0, pc, cs, i as nat, q) by { lemma_lk_ext(m0, pc, cells_prev, cs, i as nat, q); }
+//|                     assert(map_is(m, m0, pc, cs, i as nat) && cell_imp(*cs[i].v, pc[i], m));
+//|                 }
+//|             }
+//@ end
+//@ fn layout21tetris/src/conv/proto.rs :: impl ProtoLibImporter :: fn import_cell
+//@   ret r
+//@   spec
+//|     ensures final(self).cell_map == old(self).cell_map, r is Ok ==> cell_imp(r->Ok_0, *pcell, old(self).cell_map),
+//@ end
+//@ fn layout21tetris/src/conv/proto.rs :: impl ProtoLibImporter :: fn import_abstract
+//@   ret r
+//@   sub R6 /for pport in &pabs\.ports \{/ => for pport in pabs.ports.iter() {
+//@   spec
+//|     ensures final(self).cell_map == old(self).cell_map,
+//@   loop 1
+//|             invariant self.cell_map == old(self).cell_map,
+//@ end
+    /// `todo!()` in the source: never returns, so the frame below is vacuous
+    #[verifier::external_body]
+    fn import_abstract_port(&mut self, _pport: &tproto::AbstractPort) -> (r: LayoutResult<Port>) ensures final(self).cell_map == old(self).cell_map { todo!() }
 //@ fn layout21tetris/src/conv/proto.rs :: impl ProtoLibImporter :: fn import_reference
 //@   ret r
 //@   sub R5 /let cellname: &str = match pref_to/ => let cellname: &String = match pref_to
@@ -334,15 +500,7 @@ impl ProtoLibImporter {
 //@   sub R6 /for txt in &playout\.cuts \{/ => for txt in playout.cuts.iter() {
 //@   spec
 //|     ensures final(self).cell_map == old(self).cell_map,
-//|         r is Ok ==> ({
-//|             let l = r->Ok_0;
-//|             &&& final(self).ctx@ == old(self).ctx@ &&& l.name@ == playout.name@ &&& playout.outline is Some && outline_imp(l.outline, l.metals, playout.outline->0)
-//|             // one instance / assignment / cut per message, in order; nothing else
-//|             &&& l.instances@.len() == playout.instances@.len() &&& forall|i: int| 0 <= i < playout.instances@.len() ==> inst_imp(*(#[trigger] l.instances@[i]).v, playout.instances@[i], old(self).cell_map)
-//|             &&& l.assignments@.len() == playout.assignments@.len() &&& forall|i: int| 0 <= i < playout.assignments@.len() ==> assn_imp(#[trigger] l.assignments@[i], playout.assignments@[i])
-//|             &&& l.cuts@.len() == playout.cuts@.len() &&& forall|i: int| 0 <= i < playout.cuts@.len() ==> cross_imp(#[trigger] l.cuts@[i], playout.cuts@[i])
-//|             &&& l.places@.len() == 0
-//|         }),
+//|         r is Ok ==> final(self).ctx@ == old(self).ctx@ && layout_imp(r->Ok_0, *playout, old(self).cell_map),
 //|         playout.outline is None ==> r is Err,
 //@   loop 1 iter it
 //|             invariant self.cell_map == old(self).cell_map, self.ctx@ == old(self).ctx@.push(ErrorContext::Impl), layout.name@ == playout.name@, playout.outline is Some && outline_imp(layout.outline, layout.metals, playout.outline->0),
@@ -363,6 +521,45 @@ impl ProtoLibImporter {
 //|         proof { assert(self.ctx@ =~= old(self).ctx@); }
 //@ end
 }
+/// a name defined by one of the first `n` messages is found in the map built from them
+pub proof fn lemma_lk_some(m0: CellMap, pcells: Seq<tproto::Cell>, cells: Seq<Ptr<Cell>>, n: nat, j: int)
+    requires 0 <= j < n,
+    ensures lk_after(m0, pcells, cells, n, pcells[j].name@) is Some,
+    decreases n
+{
+    if pcells[n - 1].name@ != pcells[j].name@ { lemma_lk_some(m0, pcells, cells, (n - 1) as nat, j); }
+}
+/// THEOREM (C19 "cells exported after the cells they instantiate, so that import resolves every reference"): in an exported library
+/// message, every instance of message i's layout refers by name to a cell defined by an EARLIER message; hence, whatever pointers the
+/// importer has created for the earlier messages, its cell map answers that name when message i is imported
+pub proof fn theorem_export_resolvable(g: tproto::Library, lib: Library, m0: CellMap, cells: Seq<Ptr<Cell>>, i: int, k: int)
+    requires lib_exp(g, lib), 0 <= i < g.cells@.len(), g.cells@[i].layout is Some, 0 <= k < g.cells@[i].layout->0.instances@.len(),
+    ensures ({
+        let gi = g.cells@[i].layout->0.instances@[k];
+        &&& gi.cell is Some && gi.cell->0.to is Some && gi.cell->0.to->0 is Local
+        &&& exists|j: int| 0 <= j < i && (#[trigger] g.cells@[j]).name@ == gi.cell->0.to->0->Local_0@
+        &&& lk_after(m0, g.cells@, cells, i as nat, gi.cell->0.to->0->Local_0@) is Some
+    }),
+{
+    let order = choose|order: Seq<Ptr<Cell>>| is_dep_ordering(order, lib.cells@, |c: Ptr<Cell>| cell_deps(c)) && #[trigger] cells_exp(g.cells@, order);
+    let c = *order[i].v;
+    assert(cell_exp(g.cells@[i], c));
+    let l = c.layout->0;
+    let gi = g.cells@[i].layout->0.instances@[k];
+    assert(inst_exp(gi, *l.instances@[k].v));
+    let dep = (*l.instances@[k].v).cell;
+    assert(cell_dep_seq(l)[k] == dep);
+    assert(cell_deps(order[i]).contains(dep));
+    let f = |c: Ptr<Cell>| cell_deps(c);
+    assert(f(order[i]).subset_of(order.take(i).to_set()));
+    assert(order.take(i).contains(dep));
+    let j = choose|j: int| 0 <= j < order.take(i).len() && order.take(i)[j] == dep;
+    assert(order[j] == dep);
+    assert(cell_exp(g.cells@[j], *order[j].v));
+    lemma_lk_some(m0, g.cells@, cells, i as nat, j);
+}
+proof fn canary_lib_exp(g: tproto::Library, lib: Library) requires lib_exp(g, lib), lib.cells@.len() == 2, g.cells@[1].layout is Some ensures false {}
+proof fn canary_lib_imp(lib: Library, plib: tproto::Library, m0: CellMap, m1: CellMap) requires lib_imp(lib, plib, m0, m1), plib.cells@.len() == 2, plib.cells@[1].layout is Some ensures false {}
 proof fn canary_dims(v: Seq<i64>, p: Seq<PrimPitches>) requires dims_eq(v, p), p.len() == 2 ensures false {}
 }
 fn main() {}
